@@ -624,8 +624,14 @@ void parallel_for(
         static_cast<ssize_t>(maxThreads),
         options.wait,
         options.reuseExistingState,
-        granularity);
-    runTail();
+        granularity,
+        // Without wait, the caller must not run the granularity tail itself: the tail would share
+        // states[0] with the worker that owns it and add an invocation beyond maxThreads.  Let the
+        // last chunk absorb it instead (it ends at the range end, as the contract allows).
+        options.wait ? trimmedEnd : range.end);
+    if (options.wait) {
+      runTail();
+    }
     return;
   }
 
